@@ -494,6 +494,7 @@ type scenario struct {
 	Features []string      `json:"features"`
 	LongLived bool         `json:"longLived"` // one controller instance serves every recorded sync (its informers are fed by watch events)
 	SSAAfterWarmup bool    `json:"ssaAfterWarmup"` // the warm-up runs with dynamic apply, the recorded syncs with server-side apply
+	SubFirst bool          `json:"subFirst"` // API discovery lists every "x/status" before "x"
 }
 
 func parentKey(p J) string {
@@ -544,7 +545,7 @@ func (sc *scenario) hookFunc(w *cworld) vh.HookFunc {
 }
 
 func runScenario(sc *scenario) (*caseRec, error) {
-	w := newWorld()
+	w := newWorldWith(sc.SubFirst)
 	defer w.close()
 	ctlCounter++
 	sc.Ctl.Name = fmt.Sprintf("%s", sc.Ctl.Name)
